@@ -1,5 +1,5 @@
 """Single source of truth for MANIFEST.json (bin/mkmanifest)."""
-HOOK_COMMITS = []
+HOOK_COMMITS = ["66e123d44"]   # tools::Mutex / tools::Thread yield points
 NOTES = ("Every check is `bin/vcheck <id> --tier quick|thorough`: TLC model-checks the TLA+ specification in "
          "spec/<engine>, exports behaviours/vectors, a C++ driver replays them into the real votca code built "
          "from /repo's working tree (and/or traces recorded from the real code are validated by TLC). Exit 2 = "
@@ -12,4 +12,4 @@ NOT_APPLICABLE = {
 CHECKS = {}   # filled by bin/mkmanifest from engines/<id>.py: MANIFEST
 
 # engines that are finished and reviewed; only these are registered in MANIFEST.json
-ENABLED = ["C05", "C13", "C18"]
+ENABLED = ["C04", "C05", "C13", "C18"]
